@@ -6,6 +6,25 @@ props = [json.loads(l) for l in open(os.path.join(ROOT, 'properties.jsonl'))]
 
 # id -> (technique, level text, level note, design ref)
 CHECKS = {
+ 'C01': ("TLA+ lexer/budget specifications + Total_Trace.tla validating, per input, outcomes, error positions (InsideInput over the spec's line table) and hook-H1 work counters recorded from the real lexer loop and six parser entry points run in a crash-isolated child process",
+         "Every byte string up to 4 (quick) / 5 (thorough) bytes over a 17-byte adversarial alphabet, alone and behind ten prefixes that place the cursor inside escapes, block strings, comments, numbers and argument lists; seeded byte-level mutations of the repository's own test inputs and of generated documents; 22 size-parametrised families to 16 KiB / 64 KiB. A crash, fatal error or hang of the child is attributed to its input and reported; everything that returns is validated by TLC: nil error implies a document, syntax errors carry a line/column inside the input, lexer calls <= next() calls + 1 <= tokens + 2.",
+         "Termination / no-panic is an observation of the Go runtime (child process + inactivity watchdog), not a TLC theorem; the time bound is stated on deterministic hook counters. Lexer.tla Progress/Bounds invariants are model-checked in C03.", "4/C01"),
+ 'C04': ("Lexer.tla carries line/lineStart through ignored text and block strings; TokenPos invariant (incremental = closed-form LineOf/ColOf) model-checked; every token's (start, line, column) compared on all graph paths, Lexer_Cases and Lexer_Trace",
+         "Same exhaustive input spaces as C03, compared on start offset, line and column of every token (incl. EOF) against the transducer, whose positions are themselves checked by TLC against the closed-form definition (1 + line terminators before the offset; distance from line start + 1) on every string up to length 3/4. AST-node and error positions are covered through the token they copy (positions are taken wholesale from tokens).",
+         "Positions of AST nodes and error locations beyond tokens are covered indirectly (they are copies of token positions); the String-token column convention is a recorded known finding.", "4/C04"),
+ 'C05': ("QueryGrammar.tla: LL(1) pushdown automaton with SAX tree events, invariants (nesting, no variable in const context) model-checked; state graph dumped and every path replayed into parser.ParseQuery (accept/reject + tree equality under two ignored-token layouts); transition cover and near-miss cover of the larger graph; generated trees and token mutations validated by QueryGrammar_Trace",
+         "Exhaustive within bounds: every token-class sequence up to 6 (quick) / 7 (thorough) tokens that is derivable, a viable prefix, or a viable prefix plus one inadmissible class; one shortest sentence through every transition of the 12/16-token graph plus spliced near-miss sentences; 2,000 / 30,000 generated and mutated documents whose verdict and tree are decided by the TLA+ automaton.",
+         "Trusts QueryGrammar.tla as the reading of the grammar and the AST projection; lexemes per class are representatives.", "4/C05"),
+ 'C06': ("SchemaGrammar.tla: LL(1) pushdown automaton for the type-system grammar with tree events; same machinery as C05 against parser.ParseSchema, plus BuiltIn flag propagation",
+         "Exhaustive within bounds (all paths up to 5/6 tokens over 34 classes, transition and near-miss covers at 11/14 tokens), plus generated type-system trees and single-token mutations validated by SchemaGrammar_Trace.",
+         "Trusts SchemaGrammar.tla and the SchemaDocument projection; empty description equals none; AST lists compared in fixed order.", "4/C06"),
+ 'C16': ("TokenLimit.tla budget machine (peek/next/comment-group) model-checked for Lookahead, CountOnce, WorkBound, Exact, Sticky; hook-H1 event streams of real parses validated by TokenLimit_Trace against the machine and against the specification's own tokenisation",
+         "Every generated document x every limit 0..tokens+2 x every limited entry point: the recorded stream of lexer calls / counter increments / limit hits must be a behaviour of the budget machine, the outcome must be exact (ok iff unlimited ok and tokens <= limit), the tree identical, and no lexer call may follow the limit error; 1 MiB (quick) / 8 MiB (thorough) nesting, token-flood and comment-flood families under limits 1..200000 run in a child process with lexer calls <= limit + 1.",
+         "Work/memory/recursion are bounded through the event counters (lexer calls, next() calls), not measured in seconds or bytes; trusts hook H1 placement.", "4/C16"),
+ 'C19': ("JsonCodec.tla (key sets + decoder discrimination rule, round-trip theorem model-checked); every path of the QueryGrammar graph parsed, JSON-encoded, decoded and compared with the tree denoted by the SPECIFICATION's events; generated deep documents' before/after trees and real per-selection key sets validated by JsonCodec_Trace",
+         "All derivable sentences up to 6/7 tokens, a sentence through every transition of the 12/16-token graph, and 1,500/40,000 generated documents of depth up to 6 with all three selection kinds in all orders.",
+         "Positions and comments are not compared (not in the statement).", "4/C19"),
+
  'C03': ("TLA+ transducer Lexer.tla model-checked by TLC (tiling, maximal munch, fold=step, positions); its state graph replayed path-by-path into lexer.ReadToken (M->C), Lexer_Cases terminal-state print for block strings / escapes, and recorded token streams validated by Lexer_Trace (C->M)",
          "Exhaustive within bounds: every string up to length 5 (quick) / 6 (thorough) over the 19-symbol alphabet, every string-body string up to 6/7, every block-string body up to 5/7 and every \\uXXXX escape over 6 hex digits is lexed by the real lexer and compared token by token (kind, extent, decoded value, failure point) with the outputs of the TLA+ transducer; plus seeded random long Unicode inputs validated by TLC. The oracle is the lexical grammar written in TLA+, not the Go code.",
          "Trusts Lexer.tla as the reading of the October-2021 lexical grammar, the token projection, TLC. Beyond the bounds only sampled.", "4/C03"),
